@@ -32,6 +32,7 @@ def gen_path(rng):
 
 def gen_case(rng):
     return dict(b9seed=rng.randrange(1 << 20), seed=rng.randrange(1 << 30), form=rng.choice([0x10, 0x120, 0x140]), backend=rng.choice(['mem', 'os']),
+                dev=rng.random() < 0.3,
                 nfiles=rng.randrange(1, 5), api=rng.choice(['sdfs', 'sdfs', 'sdfs', 'old']))
 
 
@@ -41,7 +42,8 @@ def run_case(ctx, mr, case):
     from pyctr.type.sdfs import SDRoot
     rng = random.Random(case['seed'])
     pyenv.install_fake_boot9(case['b9seed'])
-    blob = E._b9_keyblob['retail']
+    dev = bool(case.get('dev'))
+    blob = E._b9_keyblob['dev' if dev else 'retail']
     key16 = pyenv.rbytes(rng, 16)
     msed = sd.movable_sed(rng, key16, case['form'])
     nk = sd.sd_normal_key(sd.sd_keyx(blob), key16)
@@ -49,7 +51,7 @@ def run_case(ctx, mr, case):
     id1 = pyenv.rbytes(rng, 16).hex()
     # model of setup_sd_key (incl. a rejected length)
     out = mr.ask('sdkey ' + hx(msed))
-    e = CryptoEngine()
+    e = CryptoEngine(dev=dev)
     e.setup_sd_key(msed)
     impl = hx(bytes.fromhex('%032x' % e.key_y[0x34])) + ' ' + hx(e.id0)
     if out != impl:
@@ -93,7 +95,7 @@ def run_case(ctx, mr, case):
             files[rel] = data
         if case['api'] == 'old':
             from pyctr.type.sd import SDFilesystem
-            sdfs = SDFilesystem(tmpdir, sd_key=msed)
+            sdfs = SDFilesystem(tmpdir, sd_key=msed, dev=dev)
             ctx.stat('api_old')
             for rel, data in files.items():
                 for spelling in (rel, rel.lstrip('/'), rel.replace('/', '\\') if os.sep == '\\' else rel):
@@ -105,8 +107,9 @@ def run_case(ctx, mr, case):
                     if got != data:
                         ctx.diff('oracle', 'sd-old-read', dict(case, path=spelling), data.hex()[:40], str(got)[:40], f'SDFilesystem.open({spelling!r}) does not decrypt to the content')
             return
-        root = SDRoot(base, sd_key=msed)
+        root = SDRoot(base, sd_key=msed, dev=dev)
         ctx.stat('api_sdfs')
+        ctx.stat('dev' if dev else 'retail')
         if root.id0 != id0:
             ctx.diff('oracle', 'sd-id0', case, id0, root.id0, 'SDRoot.id0 differs')
         top = root.open_id1(id1)
@@ -144,6 +147,12 @@ def run_case(ctx, mr, case):
                         continue      # sizes the underlying OS / memory file itself rejects or cannot allocate
                     safe.append(o)
                 c.run(safe)
+                if len(c.content) > 0 and rng.random() < 0.7:
+                    # the history ends with a small write and nothing after it: what close() must get onto the disk
+                    k = rng.randrange(len(c.content))
+                    # (stepped, not run(): run() ends with a read-back sweep, which would flush a buffered file for us)
+                    c.step(['s', k, 0])
+                    c.step(['w', pyenv.rbytes(rng, min(3, len(c.content) - k)).hex()])
                 f.close()
                 files[rel] = bytes(c.content)
                 raw = base.readbytes(f'{id0}/{id1}{rel}')
